@@ -171,9 +171,20 @@ class ModelImageMixin:
             data_arr = data.data
             if data.unit is not None:
                 data_arr <<= data.unit
-            residual.data[:] = self.make_residual_image(
+            resid = self.make_residual_image(
                 data_arr, psf_shape=psf_shape,
                 include_localbkg=include_localbkg)
+            if residual.data.dtype.kind == 'f':
+                residual.data[:] = resid
+            else:
+                # the residual is a floating-point image: written into
+                # an integer data array it would be truncated (and
+                # negative values of unsigned data would wrap around)
+                residual = data.__class__(
+                    np.array(getattr(resid, 'value', resid)),
+                    uncertainty=residual.uncertainty, mask=residual.mask,
+                    wcs=residual.wcs, meta=residual.meta,
+                    unit=residual.unit)
         else:
             residual = self.make_model_image(data.shape, psf_shape=psf_shape,
                                              include_localbkg=include_localbkg)
